@@ -144,21 +144,21 @@ def run_property(pid, tier, seed):
     real = []
     for v in violations:
         v["witness"] = None
+        if v.get("finding_tag") and v["unit"] not in P.get("units", []):
+            # a deliberately failing `__finding_` twin in a unit that is here only through the ledger closure
+            # (e.g. C03 assumes gascalc::exp_cost): it is another property's finding, reported by that property
+            continue
+        listed = None
+        for k in kf["finding"]:
+            if k.get("obligation") == v["obligation"] and k.get("property") == pid:
+                listed = k
+        if listed:
+            known_lines.append(f"KNOWN-FINDING: {listed['_text']}")
+            continue
         try:
             v["witness"] = replay.search_witness(pid, v, seed)
         except Exception as e:  # the search is not the deciding step
             v["witness_error"] = str(e)
-        listed = None
-        for k in kf["finding"]:
-            # a finding recorded for ANOTHER property also applies when its obligation lives in a unit that is
-            # here only through the ledger closure (e.g. C03 assumes gascalc::exp_cost; gascalc's deliberately
-            # failing `__finding_` twins are C14's findings, not violations of C03)
-            if k.get("obligation") == v["obligation"] and (
-                    k.get("property") == pid or v["unit"] not in P.get("units", [])):
-                listed = k
-        if listed:
-            known_lines.append(f"KNOWN-FINDING: property={pid} {listed['_text']}")
-            continue
         real.append(v)
     for v in real:
         path = replay.write_replay(pid, v)
